@@ -1361,9 +1361,14 @@ def check_unit(ctx, reg: Reg, key, cls, pdu: bytes, values: dict, expected: dict
     if type(parsed) is not cls:
         ctx.fail(f'decode_class/{site}', f'parsed as {type(parsed).__name__}', case)
         return False
-    bad = diff(parsed, expected)
+    try:
+        bad = diff(parsed, expected)
+        bad_norm = diff(parsed, expected, norm=True) if bad else []
+    except Exception as e:
+        ctx.fail(f'decode_fields_raises/{site}/{type(e).__name__}', f'reading the fields of a parsed {cls.__name__} raised {e!r}', case)
+        return False
     if bad:
-        if not diff(parsed, expected, norm=True):
+        if not bad_norm:
             ctx.fail(f'uuid_width/{reg.name}', f'{cls.__name__}: UUID field(s) {bad} parsed from {pdu[:48].hex()} come back with another width', case)
         else:
             ctx.fail(f'decode_fields/{site}', f'fields {bad} differ after parsing {pdu[:48].hex()}', case)
@@ -1442,6 +1447,12 @@ def replay_pdu(ctx, case) -> None:
     if case['key'] not in by_key:
         return
     key, cls = by_key[case['key']]
+    if case.get('golden'):
+        for reg_name, code, hdr, values, hexs in golden_vectors():
+            if reg_name == reg.name and bytes.fromhex(hexs.replace(' ', '')) == pdu:
+                check_unit(ctx, reg, key, cls, pdu, values, values, hdr, case)
+                return
+        raise HarnessError('golden vector of this replay no longer exists')
     if cls in DEDICATED_REPLAY:
         DEDICATED_REPLAY[cls](ctx, reg, key, cls, case)
         return
@@ -1919,7 +1930,7 @@ def run_elements(ctx, n) -> None:
     def one(tree):
         check_element(ctx, {'tree': tree})
         wire = de_encode(tree)
-        labels = {'sdp_elem', 'sdp_type:' + tree[0], f'sdp_depth:{min(de_depth(tree), 20)}', f'sdp_idx:{wire[0] & 7}'}
+        labels = {'sdp_elem', f'sdp_depth:{min(de_depth(tree), 20)}', f'sdp_idx:{wire[0] & 7}'} | {'sdp_type:' + k for k in _DE_TYPES if de_has(tree, k)}
         if de_has(tree, 'uuid'):
             labels.add('sdp_has_uuid')
         ctx.case(('de', wire), wire != b'\x00', labels, sample={'element': describe_tree(tree), 'wire': wire[:32].hex(), 'len': len(wire)})
@@ -3012,7 +3023,7 @@ def run_golden(ctx) -> None:
 
 # ---------------------------------------------------------------------------
 def run(ctx) -> None:
-    per_class = ctx.n(25, 1500)
+    per_class = ctx.n(40, 1500)
     registered, covered = {}, {}
     run_golden(ctx)
     for reg in REGS.values():
@@ -3026,7 +3037,7 @@ def run(ctx) -> None:
 
     run_ertm(ctx, ctx.n(150, 8000))
     run_psm(ctx, ctx.n(150, 8000))
-    run_elements(ctx, ctx.n(300, 24000))
+    run_elements(ctx, ctx.n(600, 24000))
     run_rfcomm(ctx, ctx.n(200, 16000))
     run_mcc(ctx, ctx.n(100, 8000))
     run_caps(ctx, ctx.n(150, 12000))
@@ -3035,7 +3046,7 @@ def run(ctx) -> None:
     run_ad(ctx, ctx.n(150, 12000))
     run_address(ctx, ctx.n(150, 8000))
     run_uuid(ctx, ctx.n(250, 16000))
-    run_history(ctx, ctx.n(300, 30000))
+    run_history(ctx, ctx.n(400, 30000))
     restore_registries()
 
     ctx.extra['classes_registered'] = registered
